@@ -65,6 +65,50 @@ fn main() {
             }
             None => 2,
         },
+        // One fixed scenario of the recorded defect D8 for Miri: safe code uses a reference that
+        // iter_mut yielded after the iterator (whose Drop re-reads every entry) is gone.
+        // 0/1: PriorityQueue / DoublePriorityQueue, write to a part of the ITEM that Eq/Hash ignore
+        // (the heap stays ordered; only the access itself is undefined); 2/3: write the priority.
+        Some("miri-late") if args.len() >= 2 => {
+            let sc: u32 = args[1].parse().unwrap_or(0);
+            types::LIGHT.store(true, std::sync::atomic::Ordering::Relaxed);
+            hashers::set_current(hashers::HasherKind::Seeded(1, 2));
+            let mut q = queue::construct(if sc % 2 == 0 { queue::Kind::Pq } else { queue::Kind::Dpq }, queue::Ctor::WithHasher);
+            for k in 0..4u32 {
+                q.push(types::Key::new(k, 0), types::Prio::new(k as i32));
+            }
+            println!("L {} start", sc);
+            match &mut q {
+                queue::AnyQ::Pq(x) => {
+                    let mut it = x.iter_mut();
+                    let (item, prio) = it.next().unwrap();
+                    // used while the iterator is alive (fine) …
+                    item.payload = 6;
+                    prio.v += 0;
+                    drop(it); // … the rebuild in Drop reads every entry …
+                    if sc < 2 {
+                        item.payload = 7; // … and this use comes after it
+                    } else {
+                        prio.v = 100;
+                    }
+                }
+                queue::AnyQ::Dpq(x) => {
+                    let mut it = x.iter_mut();
+                    let (item, prio) = it.next().unwrap();
+                    item.payload = 6;
+                    prio.v += 0;
+                    drop(it);
+                    if sc < 2 {
+                        item.payload = 7;
+                    } else {
+                        prio.v = 100;
+                    }
+                }
+            }
+            let top = q.peek(queue::End::Max);
+            println!("L {} done peek={:?}", sc, top);
+            0
+        }
         Some("amplify") if args.len() >= 2 => hist::amplify_main(&args[1]),
         Some("selftest") => orch::selftest_determinism(&|p| engines::engine_of(p), args.get(2).and_then(|s| s.parse().ok()).unwrap_or(1200)),
         Some("replay") if args.len() >= 2 => orch::replay_main(&|p| engines::engine_of(p), &args[1]),
